@@ -62,8 +62,12 @@ type VerifHooks struct {
 	WalOpened     func(file any, db string)
 	WalIO         func(file any, kind int, b []byte)
 	WalTruncate   func(file any, size int64)
-	Replay        func(fs *VerifStore, op uint8, lsn uint64, pageID uint64, cellID uint32, redo bool)
-	LRU           func(l *LRUCache, kind int, key any, n *VerifNode)
+	// WalFileOp, if set, makes every log file handle report the calls that
+	// actually reach it: op is "write" (before the write), "synced" (after a
+	// successful fsync) or "truncated" (after a successful truncate).
+	WalFileOp func(file any, op string, b []byte, size int64)
+	Replay    func(fs *VerifStore, op uint8, lsn uint64, pageID uint64, cellID uint32, redo bool)
+	LRU       func(l *LRUCache, kind int, key any, n *VerifNode)
 }
 
 var verifHooks *VerifHooks
@@ -151,8 +155,15 @@ func verifWalOpened(file any, db string) {
 
 func verifWalIO(file any, kind int, b []byte) {
 	if h := verifHooks; h != nil && h.WalIO != nil {
-		h.WalIO(file, kind, b)
+		h.WalIO(verifUnwrapWal(file), kind, b)
 	}
+}
+
+func verifUnwrapWal(file any) any {
+	if f, ok := file.(*verifWalFile); ok {
+		return f.readWriteSyncCloser
+	}
+	return file
 }
 
 func verifReplay(fs *fileStore, e *WALEntry, redo bool) {
@@ -169,6 +180,50 @@ func verifLRU(l *LRUCache, kind int, key any, n *btreeNode) {
 
 func verifWalTruncate(file any, size int64) {
 	if h := verifHooks; h != nil && h.WalTruncate != nil {
-		h.WalTruncate(file, size)
+		h.WalTruncate(verifUnwrapWal(file), size)
 	}
+}
+
+// verifWalFile wraps a log file handle so that a simulator observes the
+// Write / Sync / Truncate calls that really happen, independently of the hook
+// lines in wal.go.
+type verifWalFile struct {
+	readWriteSyncCloser
+}
+
+func (f *verifWalFile) Write(b []byte) (int, error) {
+	if h := verifHooks; h != nil && h.WalFileOp != nil {
+		h.WalFileOp(f.readWriteSyncCloser, "write", b, 0)
+	}
+	return f.readWriteSyncCloser.Write(b)
+}
+
+func (f *verifWalFile) Sync() error {
+	err := f.readWriteSyncCloser.Sync()
+	if h := verifHooks; err == nil && h != nil && h.WalFileOp != nil {
+		h.WalFileOp(f.readWriteSyncCloser, "synced", nil, 0)
+	}
+	return err
+}
+
+func (f *verifWalFile) Truncate(size int64) error {
+	t, ok := f.readWriteSyncCloser.(interface{ Truncate(size int64) error })
+	if !ok {
+		return nil
+	}
+	err := t.Truncate(size)
+	if h := verifHooks; err == nil && h != nil && h.WalFileOp != nil {
+		h.WalFileOp(f.readWriteSyncCloser, "truncated", nil, size)
+	}
+	return err
+}
+
+func verifWalWrap(r readWriteSyncCloser) readWriteSyncCloser {
+	if h := verifHooks; h == nil || h.WalFileOp == nil {
+		return r
+	}
+	if _, done := r.(*verifWalFile); done {
+		return r
+	}
+	return &verifWalFile{r}
 }
